@@ -167,13 +167,15 @@ def obligations(tier):
     for n in range(0, 3 if q else 5):
         add("getlbastatus/n=%d" % n, "h_simple", fmt="getlbastatus", arg=n)
         add("reportluns/n=%d" % n, "h_simple", fmt="reportluns", arg=n)
+    add("reportluns/n=12", "h_simple", fmt="reportluns", arg=12)   # two-digit LUN indices (lun10 sorts before lun2 as text)
     for ext in (False, True):
         for ports in ([], [0], [1], [2, 1]):
             add("rtpg/ext=%s/ports=%s" % (ext, ports), "h_simple", fmt="rtpg", arg=[ext, ports])
     for i, pages in enumerate([[], [[2, 0, 0, 1]], [[1, 0, 0, 2]], [[3, 1, 0, 1]], [[2, 0, 1, 1]], [[4, 1, 1, 1]], [[2, 0, 0, 1], [4, 0, 1, 1]]]):
         add("readelementstatus/%d:%s" % (i, pages), "h_simple", fmt="readelementstatus", arg=pages)
-    for kind in R.TRANSPORT_KINDS:
-        for nl in ((9,) if not kind.startswith("iscsi") else ((1, 2, 3, 4, 5, 11, 12) if q else range(1, 41))):
+    for kind in R.TRANSPORT_KINDS + ["iscsi-name-utf8", "iscsi-name-isid-utf8", "iscsi-name-isid-upper"]:
+        for nl in ((9,) if not kind.startswith("iscsi") else ((25, 26, 27, 28) if kind.endswith("-utf8") else
+                   ((1, 2, 3, 4, 5, 11, 12) if q or kind.endswith("-upper") else range(1, 41)))):
             add("transport-id/%s/name-len=%d" % (kind, nl), "h_transport_id", kind=kind, name_len=nl)
     return obs
 
